@@ -7,7 +7,7 @@ CTX = [('', ''), ('p', 'q'), ('\\begin{e}', '\\end{e}'), ('\\begin{e}x\\begin{f}
        ('\\begin{e}[o]{r}', '\\w{z}\\end{e}')]
 BUILTIN = ['verbatim', 'lstlisting', 'verbatimtab', 'Verbatim', 'listing']
 FRAGS = ['', '\\end{other}', '\\begin{verbatim}', '$', 'x{', 'x}', 'x[', ']', '\\begin{e}', '\\end{e}', '%c\n', '\\item', '$$', '\\(',
-         '\\zz{q}', 'x\\', '\\end{verbati}', '\\end verbatim', '\\en', '\\end{@', '\\end{@x}', '\\end{@ }', '\\end[@}', 'a\\end{@\n']
+         '\\zz{q}', 'x\\', '\\end{verbati}', '\\end verbatim', '\\en', '\\end{@', '\\end{@x}', '\\end{@ }', '\\end[@}', 'a\\end{@\n', '\\end {@}', '\\end\n{@}x', 'x\\left', '$\\big', '\\Bigg\\', '\\right.']
 
 
 def body_ok(b):
@@ -87,6 +87,39 @@ def rename_shape(s, old, new):
             return ('env', new, rename_shape(s[2], old, new), rename_shape(s[3], old, new))
         return tuple([rename_shape(x, old, new) for x in s])
     return s
+
+
+def c11_both(ci, n):
+    """a built-in and a user-chosen verbatim-like environment in the same document: both stay opaque"""
+    name = SX.fresh(1)
+    SX.assume(SX.ch_in(name, LETTERS))
+    SX.assume(SX.Not(SX.ch_among(name, 'efworb')))
+    b1 = '$' + SX.fresh(n) + '{'
+    b2 = '}\\b{' + SX.fresh(n)
+    body_ok(b1)
+    body_ok(b2)
+    for b in (b1, b2):
+        for term in ('\\end{verbatim}', '\\end{' + name + '}'):
+            for i in range(len(b) - len(term) + 1):
+                SX.assume(SX.Not(SX.s_eq(b[i:i + len(term)], term)))
+    pre, post = CTX[ci]
+    src = pre + '\\begin{verbatim}' + b1 + '\\end{verbatim}x\\begin{' + name + '}' + b2 + '\\end{' + name + '}' + post
+    det = lambda: {'source': src, 'skip_envs': name}
+    try:
+        soup = TexSoup(src, skip_envs=(name,))
+    except Exception as e:
+        SX.check(False, 'C11:parse-error:' + type(e).__name__, lambda: dict(det(), error=repr(e)[:200]))
+        return ('parse-fails',)
+    SX.check(str(soup) == src, 'C11:roundtrip', lambda: dict(det(), output=str(soup)))
+    for nm, body in (('verbatim', b1), (name, b2)):
+        envs = soup.find_all(nm)
+        SX.check(len(envs) == 1, 'C11:env-count', lambda: dict(det(), env=nm, found=len(envs)))
+        if len(envs) == 1:
+            allc = envs[0].expr.all
+            SX.check(''.join([SX.raw(str(x)) for x in allc]) == body and len(list(envs[0].children)) == 0, 'C11:body-text',
+                     lambda: dict(det(), env=nm, body=[SX.raw(str(x)) for x in allc]))
+    SX.check(soup.find('b') is None, 'C11:body-parsed', det)
+    return ('ok', str(soup))
 
 
 def c11_without_option(ci):
